@@ -210,6 +210,11 @@ pub fn run(ctx: &Ctx) -> PropReport {
     g.notes.push("items drawn by pushr's own generator (unseedable): every draw must round-trip; a failure stores the generation parameters".into());
     g.sample(json!({"generated_size": 8, "with_bindings": true, "printer": 0}));
     rep.push(g);
+    if ctx.tier == Tier::Thorough {
+        let mut r = crate::fuzzrun::campaign(ctx, "C11", "roundtrip_text", 16_000_000, 256);
+        r.notes.push("target: any text s, t = parse(s); if t lies in the property's tree language parse(print(t)) must equal t (Item::equals), with floats print(parse(print(t))) = print(t); token dictionary fuzz/dict/roundtrip_text.dict".into());
+        rep.push(r);
+    }
     rep
 }
 
